@@ -177,6 +177,12 @@ fn iov2(keep: &mut Keep, total: usize, fill: Option<&[u8]>) -> (usize, usize) {
     (p, keep.bufs.len() - 2)
 }
 
+/// the two registered buffers of the ring (64 bytes each)
+static mut REGBUF: [usize; 2] = [0, 0];
+fn regbuf(i: usize) -> *mut u8 {
+    unsafe { REGBUF[i] as *mut u8 }
+}
+
 struct Built {
     sqe: IoUringSubmissionQueueEntry,
     buf_ix: Option<usize>,
@@ -207,6 +213,19 @@ fn build(op: &Value, w: &World, u: u64, link: bool, keep: &mut Keep) -> Built {
                 let d = WDATA[g("data") as usize];
                 let (p, _) = iov2(keep, d.len(), Some(d));
                 IoUringSubmissionQueueEntry::new_writev(Fd::try_new(w.fd(g("h") as usize)).unwrap(), p, 2, u, fl)
+            }
+            "readfix" => {
+                let b = g("buf") as usize;
+                std::ptr::write_bytes(regbuf(b), 0, 64);
+                IoUringSubmissionQueueEntry::new_readv_fixed(Fd::try_new(w.fd(g("h") as usize)).unwrap(), b as u16, regbuf(b) as u64,
+                    RLEN[g("len") as usize] as u32, u, fl)
+            }
+            "writefix" => {
+                let b = g("buf") as usize;
+                let d = WDATA[g("data") as usize];
+                std::ptr::copy_nonoverlapping(d.as_ptr(), regbuf(b), d.len());
+                IoUringSubmissionQueueEntry::new_writev_fixed(Fd::try_new(w.fd(g("h") as usize)).unwrap(), b as u16, regbuf(b) as u64,
+                    d.len() as u32, u, fl)
             }
             "statx" => {
                 let b: Box<libc::statx> = Box::new(std::mem::zeroed());
@@ -271,6 +290,15 @@ fn direct(op: &Value, w: &World) -> (i64, Value) {
                 let (p, _) = iov2(&mut keep, d.len(), Some(d));
                 (ret(libc::pwritev(w.fd(g("h") as usize), p as *const libc::iovec, 2, 0) as i64), Value::Null)
             }
+            "readfix" => {
+                let mut tmp = [0u8; 64];
+                let r = ret(libc::pread(w.fd(g("h") as usize), tmp.as_mut_ptr().cast(), RLEN[g("len") as usize], 0) as i64);
+                (r, if r >= 0 { json!(String::from_utf8_lossy(&tmp[..(r as usize).min(64)])) } else { Value::Null })
+            }
+            "writefix" => {
+                let d = WDATA[g("data") as usize];
+                (ret(libc::pwrite(w.fd(g("h") as usize), d.as_ptr().cast(), d.len(), 0) as i64), Value::Null)
+            }
             "statx" => {
                 let mut s: libc::statx = std::mem::zeroed();
                 let r = ret(i64::from(libc::statx(w.dir, cstr(NAMES[g("name") as usize]).as_ptr(), 0, libc::STATX_BASIC_STATS, &mut s)));
@@ -327,7 +355,15 @@ fn run(batches: &str, root: &str, entries: u32, flagbits: u32, out: &mut Out) {
             return;
         }
     };
-    out.ev(&json!({"ev":"ring","entries":entries,"flags":flagbits}));
+    // two registered buffers (IORING_REGISTER_BUFFERS through the wrapper)
+    let mut rb0 = vec![0u8; 64];
+    let mut rb1 = vec![0u8; 64];
+    unsafe {
+        REGBUF = [rb0.as_mut_ptr() as usize, rb1.as_mut_ptr() as usize];
+        let reg = rusl::io_uring::io_uring_register_buffers(ring.fd, &[rusl::platform::IoSliceMut::new(&mut rb0), rusl::platform::IoSliceMut::new(&mut rb1)]);
+        out.ev(&json!({"ev":"ring","entries":entries,"flags":flagbits,"register_buffers_ok":reg.is_ok()}));
+        assert!(reg.is_ok(), "io_uring_register_buffers failed");
+    }
     let mut next_u: u64 = 1000;
     let mut graveyard: std::collections::VecDeque<Keep> = std::collections::VecDeque::new();
     let f = std::io::BufReader::new(std::fs::File::open(batches).unwrap());
@@ -366,10 +402,10 @@ fn run(batches: &str, root: &str, entries: u32, flagbits: u32, out: &mut Out) {
                 Err(m) => panicked = json!({"call":"get_next_sqe_slot","msg":m}),
             }
             let mut s = json!({"u":u,"op":op["op"],"link":link,"req":0,"got_slot":got_slot});
-            if op["op"] == "readv" {
+            if op["op"] == "readv" || op["op"] == "readfix" {
                 s["req"] = json!(RLEN[op["len"].as_u64().unwrap_or(0) as usize]);
             }
-            if op["op"] == "writev" {
+            if op["op"] == "writev" || op["op"] == "writefix" {
                 s["req"] = json!(WDATA[op["data"].as_u64().unwrap_or(0) as usize].len());
             }
             subs.push(s);
@@ -435,6 +471,11 @@ fn run(batches: &str, root: &str, entries: u32, flagbits: u32, out: &mut Out) {
                     let mut data = keep.bufs[ix].clone();
                     data.extend_from_slice(&keep.bufs[ix + 1]);
                     json!(String::from_utf8_lossy(&data[..(res as usize).min(data.len())]))
+                }
+                "readfix" if res >= 0 => {
+                    let b = op["buf"].as_u64().unwrap_or(0) as usize;
+                    let data = unsafe { std::slice::from_raw_parts(regbuf(b), 64) };
+                    json!(String::from_utf8_lossy(&data[..(res as usize).min(64)]))
                 }
                 "statx" if res == 0 => stx_json(&keep.stx[built[k].stx_ix.unwrap()]),
                 _ => Value::Null,
